@@ -144,7 +144,10 @@ def run_shard(args):
     if replay:
         cmd = "%s -replay %s -first %d -out %s" % (os.path.join(BUILD, "harness"), replay, first, logf)
     else:
-        cmd = "%s -n %d -ops %d -seed %d -first %d -out %s" % (os.path.join(BUILD, "harness"), n, ops, seed, first, logf)
+        # every second shard runs with -sim: each message is first executed on a discarded branch of the state (what a
+        # node does in CheckTx and for gas estimation), and now and then a parameter change is simulated that is never
+        # executed; none of that may be visible to the operations that follow
+        cmd = "%s %s -n %d -ops %d -seed %d -first %d -out %s" % (os.path.join(BUILD, "harness"), "-sim" if idx % 2 == 1 else "", n, ops, seed, first, logf)
     rc, out = sh("timeout 3000 " + cmd + " > /dev/null 2>&1", cwd=BUILD)
     if rc != 0:
         return idx, "harness failed rc=%d" % rc
